@@ -632,7 +632,7 @@ type resultT struct {
 	StalledHandlerG int                 `json:"stalled_handler_g,omitempty"` // goroutine id of the stalled connection's handler
 }
 
-const earlyStallWindow = 3 * time.Second
+const earlyStallWindow = 2 * time.Second
 
 type childIn struct {
 	Scenario    scenarioT `json:"scenario"`
